@@ -205,7 +205,16 @@ func (e *Entry) Modules() *Modules {
 	for e.Parent != nil {
 		e = e.Parent
 	}
-	return e.Node.(*Module).Modules
+	// The root of e's tree is the entry of a grouping or deviation
+	// statement, not of a module, when e hangs off Entry.Deviations or
+	// Entry.Uses or was obtained from ToEntry on such a statement.
+	if e.Node == nil {
+		return nil
+	}
+	if m := RootNode(e.Node); m != nil {
+		return m.Modules
+	}
+	return nil
 }
 
 // IsDir returns true if e is a directory.
@@ -1526,7 +1535,11 @@ func (e *Entry) InstantiatingModule() (string, error) {
 		return "", fmt.Errorf("entry %s had nil namespace", e.Name)
 	}
 
-	module, err := e.Modules().FindModuleByNamespace(n.Name)
+	ms := e.Modules()
+	if ms == nil {
+		return "", fmt.Errorf("entry %s is not part of a module set", e.Name)
+	}
+	module, err := ms.FindModuleByNamespace(n.Name)
 	if err != nil {
 		return "", fmt.Errorf("could not find module %q when retrieving namespace for %s: %v", n.Name, e.Name, err)
 	}
